@@ -167,6 +167,29 @@ impl LogInnerManager {
         };
         let (data_cursor, msg_count) =
             Self::move_to_end(&mut data_file, indexs.last().unwrap(), start_index).await?;
+        // a kill can separate the record that completes an index step from its index entry:
+        // write the entries that are missing, or every later entry would be read back one step early
+        let mut indexs = indexs;
+        let mut index_cursor = index_cursor;
+        let mut index_file = index_file;
+        let index_interval = header.index_interval as u64;
+        while index_interval > 0 {
+            let last = indexs.last().unwrap().clone();
+            if msg_count - (last.log_index - start_index) < index_interval {
+                break;
+            }
+            let (cursor, _) =
+                Self::move_to_index_by_count(&mut data_file, &last, start_index, index_interval)
+                    .await?;
+            let index_data = write_varint64(cursor - last.file_index);
+            index_file.seek(SeekFrom::Start(index_cursor)).await?;
+            index_file.write_all(&index_data).await?;
+            index_cursor += index_data.len() as u64;
+            indexs.push(InnerIdxDto {
+                log_index: last.log_index + index_interval,
+                file_index: cursor,
+            });
+        }
         data_file.seek(SeekFrom::Start(data_cursor)).await?;
         log::info!(
             "data_cursor:{},{},{}|index:{},{},{}|pre_term:{}",
